@@ -49,6 +49,7 @@ type Scenario struct {
 	DelayMs    int              `json:"delay_ms,omitempty"`
 	TimeoutMs  int              `json:"read_timeout_ms"`
 	ConsumerMs int              `json:"consumer_ms,omitempty"` // the application spends this long on every envelope before it takes the next one off the channel
+	StepBack   int              `json:"step_back,omitempty"`   // scripted sender: from its second envelope on its clock reads this many seconds less than before (stepped back by a time service, a leap second): later envelopes carry an earlier time signed, all inside the fudge
 	SkewS      int              `json:"skew_s,omitempty"`      // scripted sender: its clock is this many seconds off the receiver's (ahead when positive) - inside the fudge unless a fault plan says otherwise
 	EmptyKeys  bool             `json:"empty_keys,omitempty"`  // the receiver has TSIG switched on (a non-nil secret map) but holds no key: no envelope can verify
 	Dial       string           `json:"dial,omitempty"`        // "" a preset connection | ok | refused : Transfer.In makes the connection itself (socket seam of the instrumented build; a preset connection elsewhere)
@@ -123,6 +124,9 @@ func Gen(seed uint64, tier string) any {
 		// the two ends' clocks disagree, by less than the fudge (or by exactly the fudge: still valid)
 		f := max(sc.Fudge, 1)
 		sc.SkewS = core.Pick(r, 1, -1, 2, f-1, 1-f, f/2, f)
+	}
+	if sc.Alg != "" && sc.Fudge >= 5 && core.Chance(r, 15) {
+		sc.SkewS, sc.StepBack = core.Pick(r, 0, 1, 2), core.Pick(r, 1, 1, 2, 4)
 	}
 	if sc.Alg == "" && core.Chance(r, 6) {
 		sc.EmptyKeys = true
@@ -718,7 +722,12 @@ func (s *scriptedTask) RunEvent(time.Time) {
 			return
 		}
 		if signed {
-			b = oracle.SignTSIG(b, keyName, sc.Alg, secretGood, prior, i > 0, uint64(time.Now().Unix()+int64(sc.SkewS)), uint16(max(sc.Fudge, 1)))
+			clock := time.Now().Unix() + int64(sc.SkewS)
+			if i > 0 && sc.StepBack > 0 {
+				clock -= int64(sc.StepBack)
+				k.Bump("fault.sender_clock_stepped_back")
+			}
+			b = oracle.SignTSIG(b, keyName, sc.Alg, secretGood, prior, i > 0, uint64(clock), uint16(max(sc.Fudge, 1)))
 			if t, _, ok := oracle.FindTSIG(b); ok {
 				prior = append([]byte(nil), t.MAC...)
 			}
